@@ -284,6 +284,8 @@ theorem act_life (c : Conn) (f : Bool) (a : Act) (ha : c.alive = true) (hi : Lif
     · exact hi
   | stopRead => simp only [act]; exact handOff_life _ _ _ _ _ ha hi (stopReadInLoop_life _)
   | startRead => simp only [act]; exact handOff_life _ _ _ _ _ ha hi (startReadInLoop_life _)
+  | setWc k => exact hi.frame ⟨rfl, rfl, rfl, rfl, rfl, rfl, rfl, rfl, rfl, rfl⟩
+  | setHwm k m => exact hi.frame ⟨rfl, rfl, rfl, rfl, rfl, rfl, rfl, rfl, rfl, rfl⟩
 
 
 /-! ### callbacks and handlers -/
@@ -337,7 +339,7 @@ theorem sendDirect_ao (c : Conn) (data : Bytes) (r : WriteRes) : SameAO c (sendD
   | took n =>
     simp only [sendDirect]
     split
-    · exact SameAO.trans (b := enqueue ({ c with wrote := c.wrote ++ data.take n } : Conn) .writeComplete) ⟨rfl, rfl⟩ (queueRemainder_ao _ _ _ _)
+    · exact SameAO.trans (b := enqueue ({ c with wrote := c.wrote ++ data.take n } : Conn) (.writeComplete (bindCb wcBindSend c.wcId))) ⟨rfl, rfl⟩ (queueRemainder_ao _ _ _ _)
     · exact SameAO.trans (b := ({ c with wrote := c.wrote ++ data.take n } : Conn)) ⟨rfl, rfl⟩ (queueRemainder_ao _ _ _ _)
   | err e => exact queueRemainder_ao _ _ _ _
 
@@ -388,6 +390,8 @@ theorem act_ao (c : Conn) (f : Bool) (a : Act) : SameAO c (act c f a) := by
     · exact ⟨rfl, rfl⟩
   | stopRead => simp only [act]; exact handOff_ao _ _ _ _ _ (stopReadInLoop_ao _)
   | startRead => simp only [act]; exact handOff_ao _ _ _ _ _ (startReadInLoop_ao _)
+  | setWc k => exact ⟨rfl, rfl⟩
+  | setHwm k m => exact ⟨rfl, rfl⟩
 
 theorem callback_ao (c : Conn) (k : Cb) (e : Ev) : SameAO c (callback c k e) := by
   unfold callback; split
